@@ -948,15 +948,17 @@ func (s *Server) handleRelease(req *dhcpv4.DHCPv4) {
 
 		// Remove from fast path cache (MAC-based)
 		macU64 := ebpf.MACToUint64(mac)
-		if err := s.loader.RemoveSubscriber(macU64); err != nil {
-			s.logger.Warn("Failed to remove from fast path cache",
-				zap.String("mac", mac.String()),
-				zap.Error(err),
-			)
+		if s.loader != nil {
+			if err := s.loader.RemoveSubscriber(macU64); err != nil {
+				s.logger.Warn("Failed to remove from fast path cache",
+					zap.String("mac", mac.String()),
+					zap.Error(err),
+				)
+			}
 		}
 
 		// Remove from VLAN-based cache for QinQ deployments
-		if (lease.STag > 0 || lease.CTag > 0) && s.loader.HasVLANSupport() {
+		if s.loader != nil && (lease.STag > 0 || lease.CTag > 0) && s.loader.HasVLANSupport() {
 			if err := s.loader.RemoveVLANSubscriber(lease.STag, lease.CTag); err != nil {
 				s.logger.Warn("Failed to remove from VLAN fast path cache",
 					zap.Uint16("s_tag", lease.STag),
@@ -967,7 +969,7 @@ func (s *Server) handleRelease(req *dhcpv4.DHCPv4) {
 		}
 
 		// Issue #15: Remove circuit-id to MAC mapping if present
-		if len(lease.CircuitID) > 0 {
+		if len(lease.CircuitID) > 0 && s.loader != nil {
 			if err := s.loader.RemoveCircuitIDMapping(lease.CircuitID); err != nil {
 				s.logger.Warn("Failed to remove circuit-id to MAC mapping",
 					zap.String("mac", mac.String()),
